@@ -14,6 +14,8 @@
  * along with this program.  If not, see <https://www.gnu.org/licenses/>.
  */
 
+use std::fs::Metadata;
+use std::io::{self, ErrorKind};
 use std::path::Path;
 use ignore::gitignore::{Gitignore, GitignoreBuilder};
 use log::info;
@@ -21,6 +23,27 @@ use walkdir::DirEntry;
 
 use crate::config::Config;
 use crate::errors::Result;
+
+// `Path::exists()` and `Path::is_dir()` read *any* failure of the
+// underlying stat() as "no such entry". The variants below only do so
+// when the entry really is missing; every other error is reported.
+fn found(stat: io::Result<Metadata>) -> Result<Option<Metadata>> {
+    match stat {
+        Ok(meta) => Ok(Some(meta)),
+        Err(e) if e.kind() == ErrorKind::NotFound => Ok(None),
+        Err(e) => Err(e.into()),
+    }
+}
+
+/// Whether `path` exists (following symlinks).
+pub fn exists(path: &Path) -> Result<bool> {
+    Ok(found(path.metadata())?.is_some())
+}
+
+/// Whether `path` is (or is a symlink to) a directory.
+pub fn is_dir(path: &Path) -> Result<bool> {
+    Ok(found(path.metadata())?.is_some_and(|meta| meta.is_dir()))
+}
 
 /// Parse a git ignore file.
 pub fn parse_ignore(source: &Path, config: &Config) -> Result<Option<Gitignore>> {
